@@ -1,3 +1,365 @@
-(** C18 (under construction) *)
-From Coq Require Import ZArith Reals List Bool.
-From KV Require Import Scalar RInst Geom Curves Path Fit C18_proofs.
+(** C18 — Curve fitting, offsetting and simplification stay near the source.
+
+    PARTIAL. The accuracy claims of the property rest on the fitter's approximate Fréchet
+    estimate from 20 ray casts; no theorem is offered for them. They stay visible below as
+    [C18_full] with the named unproved hypothesis [accepted_within_accuracy]; they are
+    tested on the implementation by the laws of harness/src/c18.rs.
+    What is proved:
+      - the STRUCTURE of fit_to_bezpath's recursion over an abstract source (any scalar
+        instance, so for the binary64 model as well as for the reals),
+      - the structure of simplify_bezpath's outer state machine over an abstract fitter,
+      - the exact algebra of the CubicOffset sample and of simplify::moment_integrals (reals),
+      - the reduction of the accuracy claim to the per-leaf acceptance claim.
+    Statements only; proofs in proofs/C18_proofs.v, vocabulary in spec/FitSpec.v and
+    (leaf_wf, sub_out, fitter_chain, ...) next to the lemmas in proofs/C18_proofs.v. *)
+From Coq Require Import ZArith QArith Reals List Bool Floats Lra.
+From Coquelicot Require Import Coquelicot.
+From KV Require Import Scalar RInst F64 Geom Curves Path Affine Fit FitSpec C18_proofs.
+Import ListNotations.
+
+(* ---------------------------------------------------------------------------------- *)
+(** * fit_to_bezpath: structure of the recursion (every scalar instance) *)
+
+(** The operation-by-operation model of fit_to_bezpath_rec emits exactly the leaves of the
+    recursion tree, in order. *)
+Theorem C18_fit_rec_tree :
+  forall (T : Type) (H : Scalar T) (spt : T -> T -> Sample T) (spd : T -> Point T)
+         (bc : T -> T -> option T) (fc : T -> T -> option (CubicBez T * T)) (acc : T)
+         (fuel : nat) (s e : T) (path : list (PathEl T)),
+  fit_rec spt spd bc fc acc fuel s e path =
+  match fit_tree spt spd bc fc acc fuel s e with
+  | Some tr => Some (emit_leaves path (tree_leaves tr))
+  | None => None
+  end.
+Proof. exact @fit_rec_tree. Qed.
+
+(** fit_rec_chain, structural form: WHATEVER the source and the oracles answer, within fuel the
+    output is one MoveTo followed by exactly one CurveTo per leaf; the leaf ranges are consecutive
+    from 0 to 1; a leaf is a line accepted on a short chord, the oracle's cubic for exactly that
+    range, or the straight cubic of a collapsed range. *)
+Theorem C18_fit_rec_chain_structure :
+  forall (T : Type) (H : Scalar T) (spt : T -> T -> Sample T) (spd : T -> Point T)
+         (bc : T -> T -> option T) (fc : T -> T -> option (CubicBez T * T)) (acc : T)
+         (fuel : nat) (out : list (PathEl T)),
+  fit_to_bezpath spt spd bc fc acc fuel = Some out ->
+  exists (l : Z * (T * T) * CubicBez T) (ls : list (Z * (T * T) * CubicBez T)),
+    chain f0 (map leaf_range (l :: ls)) f1 /\
+    List.Forall (leaf_wf spt spd bc fc acc) (l :: ls) /\
+    out = MoveTo (c0 (leaf_cubic l)) :: map leaf_curve (l :: ls).
+Proof. exact @fit_rec_chain_leaves. Qed.
+
+(** fit_rec_chain: if the cubic oracle keeps the end points of the range it is asked to fit
+    (see [C18_fit_to_cubic_affine_endpoints]), the fitted path starts with MoveTo at the source's
+    start sample, each leaf emits one CurveTo ending at the end sample of its range, the ranges
+    are consecutive, and the path ends at the source's end sample. *)
+Theorem C18_fit_rec_chain :
+  forall (T : Type) (H : Scalar T) (spt : T -> T -> Sample T) (spd : T -> Point T)
+         (bc : T -> T -> option T) (fc : T -> T -> option (CubicBez T * T)) (acc : T)
+         (fuel : nat) (out : list (PathEl T)),
+  oracle_keeps_endpoints spt fc ->
+  fit_to_bezpath spt spd bc fc acc fuel = Some out ->
+  exists (ranges : list (T * T)) (curves : list (PathEl T)),
+    ranges <> [] /\
+    chain f0 ranges f1 /\
+    out = MoveTo (sp spt f0) :: curves /\
+    Forall2 (fun r el => exists p1 p2, el = CurveTo p1 p2 (ep spt (snd r))) ranges curves /\
+    last_end out = Some (ep spt f1).
+Proof. exact @fit_rec_chain. Qed.
+
+(** ... and when the source is continuous (both one-sided samples agree) the segments of the
+    fitted path are exactly the leaf cubics: the path is continuous and consecutive leaves share
+    their end point. *)
+Theorem C18_fit_segments :
+  forall (T : Type) (H : Scalar T) (spt : T -> T -> Sample T) (spd : T -> Point T)
+         (bc : T -> T -> option T) (fc : T -> T -> option (CubicBez T * T)) (acc : T)
+         (fuel : nat) (out : list (PathEl T)),
+  oracle_keeps_endpoints spt fc ->
+  (forall t, sp spt t = ep spt t) ->
+  fit_to_bezpath spt spd bc fc acc fuel = Some out ->
+  exists leaves,
+    leaves <> [] /\ chain f0 (map leaf_range leaves) f1 /\
+    List.Forall (leaf_wf spt spd bc fc acc) leaves /\
+    segments out = Some (map (fun l => SegCubic (leaf_cubic l)) leaves).
+Proof. exact @fit_segments. Qed.
+
+(** fit_line_fallback: when the split parameter (a reported cusp, or the midpoint) equals an end
+    of the range, a straight cubic between the end samples is emitted and the recursion stops
+    (one unit of fuel is enough whatever the remaining fuel). *)
+Theorem C18_fit_line_fallback :
+  forall (T : Type) (H : Scalar T) (spt : T -> T -> Sample T) (spd : T -> Point T)
+         (bc : T -> T -> option T) (fc : T -> T -> option (CubicBez T * T)) (acc : T)
+         (k : nat) (s e : T) (path : list (PathEl T)) (t : T),
+  line_attempt spt spd acc s e = None ->
+  (bc s e = Some t \/ (bc s e = None /\ fc s e = None /\ t = fmul fhalf (fadd s e))) ->
+  (feqb t s || feqb t e)%bool = true ->
+  fit_rec spt spd bc fc acc (S k) s e path =
+    Some (push_cubic_c path (line_cubic (sp spt s) (ep spt e))) /\
+  fit_tree spt spd bc fc acc (S k) s e = Some (FLeaf 3 s e (line_cubic (sp spt s) (ep spt e))).
+Proof. exact @fit_line_fallback. Qed.
+
+(** a line leaf: the straight cubic between the end samples, and none of the 7 interior samples
+    try_fit_line looks at is farther from the chord than the accuracy (squared distances compared) *)
+Theorem C18_try_fit_line_samples :
+  forall (T : Type) (H : Scalar T) (spd : T -> Point T) (acc s e : T) (a b : Point T) (c : CubicBez T) (err : T),
+  try_fit_line spd acc s e a b = Some (c, err) ->
+  c = line_cubic a b /\
+  forall j, (j < 7)%nat ->
+    fltb (fmul acc acc)
+         (line_nearest_dsq (mkLine a b) (spd (fadd s (fmul (fofZ (Z.of_nat j + 1)) (fdiv (fsub e s) (fofZ 8)))))) = false.
+Proof. exact @try_fit_line_samples. Qed.
+
+(** in exact arithmetic the midpoint collapses only for an empty range (on binary64 it does so
+    once the range is two adjacent doubles: see the Example below) *)
+Theorem C18_fit_midpoint_collapse_real : forall s e : R,
+  (@feqb R RS (@fmul R RS fhalf (@fadd R RS s e)) s || @feqb R RS (@fmul R RS fhalf (@fadd R RS s e)) e)%bool = true
+  <-> s = e.
+Proof. exact fit_midpoint_collapse_real. Qed.
+
+(** fit_rec_ranges_tile (reals): if break_cusp answers inside the range it is given, the leaf
+    ranges tile [0,1] in order: consecutive, each of positive length, pairwise ordered, and every
+    parameter of [0,1) lies in exactly one of them. The path has one element more than leaves. *)
+Theorem C18_fit_rec_ranges_tile :
+  forall (spt : R -> R -> Sample R) (spd : R -> Point R) (bc : R -> R -> option R)
+         (fc : R -> R -> option (CubicBez R * R)) (acc : R) (fuel : nat) (out : list (PathEl R)),
+  cusp_in_range bc ->
+  fit_to_bezpath spt spd bc fc acc fuel = Some out ->
+  exists ranges : list (R * R),
+    length out = S (length ranges) /\
+    chain 0%R ranges 1%R /\
+    List.Forall (fun r => (fst r < snd r)%R) ranges /\
+    ForallOrdPairs (fun r1 r2 => (snd r1 <= fst r2)%R) ranges /\
+    (forall t : R, (0 <= t < 1)%R -> exists r, In r ranges /\ (fst r <= t < snd r)%R).
+Proof. exact fit_rec_ranges_tile. Qed.
+
+(** why [oracle_keeps_endpoints] is the right hypothesis for the real fit_to_cubic: every
+    candidate is [aff * cand] with cand.p0 = (0,0), cand.p3 = (1,0) and
+    aff = translate(start) * rotate(th) * scale(chord); in exact arithmetic that maps the unit
+    chord onto (start, end) as soon as (chord cos th, chord sin th) is the chord vector. *)
+Theorem C18_fit_to_cubic_affine_endpoints :
+  forall (start : Point R) (dx dy th chord : R),
+  (chord * cos th)%R = dx -> (chord * sin th)%R = dy ->
+  let aff := aff_mul (aff_mul (aff_translate (to_vec2 start)) (aff_rotate th)) (aff_scale chord) in
+  aff_apply aff (mkPoint 0%R 0%R) = start /\
+  aff_apply aff (mkPoint 1%R 0%R) = mkPoint (px start + dx)%R (py start + dy)%R.
+Proof. exact fit_to_cubic_affine_endpoints. Qed.
+
+(* ---------------------------------------------------------------------------------- *)
+(** * simplify_bezpath: outer state machine (every scalar instance, abstract fitter) *)
+
+(** On any list of well-formed sub-paths (MoveTo, drawing elements, optional ClosePath) the
+    result is the concatenation of the per-sub-path outputs [sub_out]: the non-degenerate
+    segments are split into runs at the corners; a one-segment run passes through unchanged,
+    longer runs go through the fitter; only the first run of a sub-path keeps its MoveTo. *)
+Theorem C18_simplify_spec :
+  forall (T : Type) (H : Scalar T) (fitter : list (PathEl T) -> list (PathEl T)) (thresh : T)
+         (sps : list (Subpath T)),
+  List.Forall sub_ok sps ->
+  simplify_bezpath fitter thresh (flat_map (@sub_els T) sps) = Some (flat_map (sub_out fitter thresh) sps).
+Proof. exact @simplify_spec. Qed.
+
+(** simplify_structure: given a fitter with the shape [C18_fit_rec_chain] gives it (MoveTo at
+    the start, CurveTo elements, ending at the end point), for sub-paths that have at least one
+    non-degenerate segment: one output sub-path per input sub-path, each starting with MoveTo at
+    the same point, closed by ClosePath exactly when the input is, with only drawing elements in
+    between, ending at the input's end point, and every corner vertex (tangent test above the
+    threshold) is a vertex of the output. *)
+Theorem C18_simplify_structure :
+  forall (T : Type) (H : Scalar T) (fitter : list (PathEl T) -> list (PathEl T)) (thresh : T)
+         (sps : list (Subpath T)),
+  fitter_chain fitter ->
+  List.Forall sub_ok sps ->
+  List.Forall (fun s => sub_segs s <> []) sps ->
+  exists outs : list (list (PathEl T)),
+    simplify_bezpath fitter thresh (flat_map (@sub_els T) sps) = Some (concat outs) /\
+    Forall2 (fun s out => exists els,
+               out = MoveTo (sp_start s) :: els ++ closing (sp_closed s) /\
+               els <> [] /\ forallb (@is_draw T) els = true /\
+               last_end els = segs_end (sub_segs s) /\
+               incl (corner_vertices (is_corner thresh) (sub_segs s)) (vertices els)) sps outs.
+Proof. exact @simplify_structure. Qed.
+
+(** the source simplify hands to the fitter: SimplifyBezPath's samples at 0 and 1 are the stored end
+    points of the queue's first and last segment (reals) — the end points [C18_fit_rec_chain] speaks
+    about are the path's own end points, which is what [fitter_chain] asks of the fitter *)
+Theorem C18_sbp_endpoints :
+  forall (segs : list (PathSeg R)) (s0 s1 : PathSeg R),
+  nth_error segs 0 = Some s0 -> nth_error segs (length segs - 1) = Some s1 ->
+  (exists tan, sbp_sample_pt_tangent (sbp_new segs) 0%R = Some (mkSample (seg_start s0) tan)) /\
+  (exists tan, sbp_sample_pt_tangent (sbp_new segs) 1%R = Some (mkSample (seg_end s1) tan)).
+Proof. exact sbp_endpoints. Qed.
+
+(* ---------------------------------------------------------------------------------- *)
+(** * CubicOffset (real instance; guards: the source derivative does not vanish at t) *)
+
+Local Open Scope R_scope.
+
+(** offset_sample_distance: |CubicOffset.eval t - c.eval t| = |d| and the offset vector is
+    perpendicular to the derivative. (The code divides by hypot(c'(t)); for c'(t) = 0 the real
+    model computes x/0 = 0 and the binary64 code NaN: excluded by the guard.) *)
+Theorem C18_offset_sample_distance : forall (c : CubicBez R) (d t : R),
+  let q := quad_eval (cubic_deriv c) t in
+  px q * px q + py q * py q <> 0 ->
+  let o := co_new c d in
+  pdist2 (co_eval o t) (cubic_eval c t) = d * d /\
+  (px (co_eval o t) - px (cubic_eval c t)) * px q + (py (co_eval o t) - py (cubic_eval c t)) * py q = 0 /\
+  R_sqrt.sqrt (pdist2 (co_eval o t) (cubic_eval c t)) = Rabs d.
+Proof. exact offset_sample_distance. Qed.
+
+(** cusp_sign = 1 - d * curvature: positive exactly while the offset distance stays below the
+    radius of curvature on that side — the property's domain |d| * max curvature <= 0.8 keeps it
+    >= 0.2 *)
+Theorem C18_offset_cusp_sign_curvature : forall (c : CubicBez R) (d t : R),
+  let q := quad_eval (cubic_deriv c) t in
+  let a := line_eval (quad_deriv (cubic_deriv c)) t in
+  let ds2 := px q * px q + py q * py q in
+  co_cusp_sign (co_new c d) t = 1 - d * ((px q * py a - py q * px a) / (ds2 * R_sqrt.sqrt ds2)).
+Proof. exact offset_cusp_sign_curvature. Qed.
+
+(** eval_deriv is the derivative of eval *)
+Theorem C18_offset_eval_deriv : forall (c : CubicBez R) (d t : R),
+  let q := quad_eval (cubic_deriv c) t in
+  px q * px q + py q * py q <> 0 ->
+  let o := co_new c d in
+  is_derive (fun u => px (co_eval o u)) t (vx (co_eval_deriv o t)) /\
+  is_derive (fun u => py (co_eval o u)) t (vy (co_eval_deriv o t)).
+Proof. exact offset_eval_deriv_is_derivative. Qed.
+
+(* ---------------------------------------------------------------------------------- *)
+(** * moment_integrals (real instance) *)
+
+(** moment_integrals_green: the three components are the integrals of y dx, x y dx and y^2 dx
+    along the cubic (Riemann integrals over the parameter) *)
+Theorem C18_moment_integrals_green : forall c : CubicBez R,
+  let x := fun t => px (cubic_eval c t) in
+  let y := fun t => py (cubic_eval c t) in
+  let dx := fun t => px (quad_eval (cubic_deriv c) t) in
+  is_RInt (fun t => y t * dx t) 0 1 (fst (fst (moment_integrals c))) /\
+  is_RInt (fun t => x t * y t * dx t) 0 1 (snd (fst (moment_integrals c))) /\
+  is_RInt (fun t => y t * y t * dx t) 0 1 (snd (moment_integrals c)).
+Proof. exact moment_integrals_green. Qed.
+
+(** ... and the area component against Curves.v's Green's-theorem area 1/2 int (x dy - y dx) *)
+Theorem C18_moment_area_vs_signed_area : forall c : CubicBez R,
+  fst (fst (moment_integrals c)) =
+  (px (c3 c) * py (c3 c) - px (c0 c) * py (c0 c)) / 2 - cubic_signed_area c.
+Proof. exact moment_area_vs_signed_area. Qed.
+
+(* ---------------------------------------------------------------------------------- *)
+(** * The accuracy claim *)
+
+(** The full claim for fit_to_bezpath (reals): for every source that honours the trait's
+    contract, the fitted path consists of the leaf cubics and is within 2*accuracy of the source
+    in Hausdorff distance. NOT PROVED: it needs [accepted_within_accuracy] (and
+    [line_within_accuracy]) of the real fit_to_cubic / try_fit_line, i.e. that the 20-ray
+    estimate is trustworthy. *)
+Definition C18_full : Prop :=
+  forall (spt : R -> R -> Sample R) (spd : R -> Point R) (bc : R -> R -> option R)
+         (fc : R -> R -> option (CubicBez R * R)) (acc : R),
+  cusp_interior bc -> src_continuous spt -> oracle_keeps_endpoints spt fc ->
+  fit_within_accuracy spt spd bc fc acc.
+
+(** what IS proved: the structure theorems reduce the global claim to the per-leaf claims *)
+Theorem C18_fit_accuracy_partial :
+  forall (spt : R -> R -> Sample R) (spd : R -> Point R) (bc : R -> R -> option R)
+         (fc : R -> R -> option (CubicBez R * R)) (acc : R),
+  cusp_interior bc -> src_continuous spt -> oracle_keeps_endpoints spt fc ->
+  accepted_within_accuracy spt fc acc ->      (* unproved hypothesis, tested by the laws *)
+  line_within_accuracy spt spd acc ->         (* unproved hypothesis, tested by the laws *)
+  fit_within_accuracy spt spd bc fc acc.
+Proof. exact fit_within_accuracy_partial. Qed.
+
+(* ---------------------------------------------------------------------------------- *)
+(** * Non-vacuity *)
+
+(** a binary64 toy source: the segment (t, 0); the oracle fits ranges no longer than 1/2 *)
+Definition ex_spt (t _ : float) : Sample float := mkSample (mkPoint t 0%float) (mkVec2 1%float 0%float).
+Definition ex_spd (t : float) : Point float := mkPoint t 0%float.
+Definition ex_bc (_ _ : float) : option float := None.
+Definition ex_fc (s e : float) : option (CubicBez float * float) :=
+  if PrimFloat.leb (e - s)%float 0.5%float
+  then Some (mkCubic (mkPoint s 0%float) (mkPoint s 0%float) (mkPoint e 0%float) (mkPoint e 0%float), 0%float)
+  else None.
+
+Example C18_fit_example :
+  fit_to_bezpath ex_spt ex_spd ex_bc ex_fc 0x1p-10%float 10 =
+  Some [MoveTo (mkPoint 0 0); CurveTo (mkPoint 0 0) (mkPoint 0.5 0) (mkPoint 0.5 0);
+        CurveTo (mkPoint 0.5 0) (mkPoint 1 0) (mkPoint 1 0)]%float.
+Proof. vm_compute. reflexivity. Qed.
+
+Example C18_fit_example_oracle : oracle_keeps_endpoints ex_spt ex_fc.
+Proof.
+  intros s e c err. unfold ex_fc. destruct (PrimFloat.leb _ _); [|discriminate].
+  intros E; inversion E; subst. split; reflexivity.
+Qed.
+
+(** the fallback on binary64: between two adjacent doubles the midpoint rounds onto an end *)
+Example C18_fit_fallback_example :
+  let s := 1%float in let e := 0x1.0000000000001p+0%float in
+  let jump (t sign : float) : Sample float :=
+    mkSample (if PrimFloat.ltb s t then mkPoint 10 10 else if PrimFloat.ltb 0 sign then mkPoint 0 0 else mkPoint 10 10)%float
+             (mkVec2 1%float 0%float) in
+  line_attempt jump ex_spd 0x1p-10%float s e = None /\
+  (feqb (fmul fhalf (fadd s e)) s || feqb (fmul fhalf (fadd s e)) e)%bool = true /\
+  fit_rec jump ex_spd ex_bc (fun _ _ => None) 0x1p-10%float 1 s e [] =
+    Some [MoveTo (mkPoint 0 0); CurveTo (pt_lerp (mkPoint 0 0) (mkPoint 10 10) one_third)
+                                        (pt_lerp (mkPoint 10 10) (mkPoint 0 0) one_third) (mkPoint 10 10)]%float.
+Proof. vm_compute. repeat split; reflexivity. Qed.
+
+Example C18_cusp_in_range_example : cusp_in_range (fun _ _ : R => @None R).
+Proof. intros s e t E; discriminate. Qed.
+
+(** simplify on binary64 with a fitter that joins the end points of the queue by one CurveTo:
+    two collinear lines are a run of two segments (fitted), the right-angle turn is a corner *)
+Definition ex_fitter (q : list (PathEl float)) : list (PathEl float) :=
+  match q, last_end q with
+  | MoveTo p :: _, Some e => [MoveTo p; CurveTo p e e]
+  | _, _ => q
+  end.
+
+Example C18_simplify_example :
+  simplify_bezpath ex_fitter 0x1.0624dd2f1a9fcp-10%float
+    [MoveTo (mkPoint 0 0); LineTo (mkPoint 1 0); LineTo (mkPoint 1 0); LineTo (mkPoint 2 0); LineTo (mkPoint 2 3); ClosePath;
+     MoveTo (mkPoint 5 5); LineTo (mkPoint 6 6)]%float =
+  Some [MoveTo (mkPoint 0 0); CurveTo (mkPoint 0 0) (mkPoint 2 0) (mkPoint 2 0); LineTo (mkPoint 2 3); ClosePath;
+        MoveTo (mkPoint 5 5); LineTo (mkPoint 6 6)]%float.
+Proof. vm_compute. reflexivity. Qed.
+
+Example C18_fitter_chain_example : fitter_chain ex_fitter.
+Proof.
+  intros p0 body Hne Hd. unfold ex_fitter.
+  assert (E : exists e, last_end (MoveTo p0 :: body) = Some e /\ last_end body = Some e).
+  { unfold last_end. cbn [rev]. destruct (rev body) as [|x r] eqn:Er.
+    - apply (f_equal (@rev _)) in Er. rewrite rev_involutive in Er. cbn in Er. congruence.
+    - cbn [app]. assert (Hx : is_draw x = true).
+      { rewrite forallb_forall in Hd. apply Hd. apply in_rev. rewrite Er. left; reflexivity. }
+      destruct x; try discriminate; eexists; split; reflexivity. }
+  destruct E as (e & E1 & E2). rewrite E1. exists [CurveTo p0 e e].
+  split; [discriminate|]. split; [reflexivity|]. split; [reflexivity|]. rewrite E2. reflexivity.
+Qed.
+
+(** a degenerate sub-path (no segment) is not covered by [C18_simplify_structure]: the model, like
+    the code, then emits a ClosePath without MoveTo (outside the property's domain; noted in docs) *)
+Example C18_simplify_degenerate_subpath :
+  simplify_bezpath ex_fitter 0x1.0624dd2f1a9fcp-10%float [MoveTo (mkPoint 1 1); LineTo (mkPoint 1 1); ClosePath]%float
+  = Some [ClosePath].
+Proof. vm_compute. reflexivity. Qed.
+
+(** the guard of the offset theorems holds e.g. on the straight cubic (0,0)..(3,0) *)
+Example C18_offset_guard_example :
+  let c := mkCubic (mkPoint 0 0) (mkPoint 1 0) (mkPoint 2 0) (mkPoint 3 0) in
+  forall t : R, let q := quad_eval (cubic_deriv c) t in px q * px q + py q * py q <> 0.
+Proof.
+  intros c t q. subst q c.
+  cbv [cubic_deriv quad_eval pt_sub s_scale_v v_scale v_add to_vec2 to_point px py vx vy c0 c1 c2 c3 q0 q1 q2].
+  rs_unfold. nra.
+Qed.
+
+(** the hypotheses of [C18_fit_accuracy_partial] are jointly satisfiable (trivially: an oracle that
+    never accepts) *)
+Example C18_accuracy_hyps_example :
+  accepted_within_accuracy (fun t _ => mkSample (mkPoint t 0) (mkVec2 1 0)) (fun _ _ => None) 1 /\
+  cusp_interior (fun _ _ : R => @None R) /\
+  src_continuous (fun t _ => mkSample (mkPoint t 0) (mkVec2 1 0)).
+Proof.
+  split; [intros s e c err _ E; discriminate|]. split; [intros s e t E; discriminate|]. intros t; reflexivity.
+Qed.
